@@ -2,7 +2,7 @@
 # usage: tools/run_all.sh [quick|thorough] [ids...]  -- runs the registered checks one after another, prints a summary
 cd "$(dirname "$0")/.."
 tier="${1:-quick}"; shift || true
-ids="${*:-C01 C02 C03 C04 C05 C06 C07 C08 C09 C10 C11 C12 C13 C14 C15 C16 C17 C18 C20}"
+ids="${*:-C01 C02 C03 C04 C05 C06 C07 C08 C09 C10 C11 C12 C13 C14 C15 C16 C17 C18 C19 C20}"
 for p in $ids; do
   t0=$(date +%s)
   out=$(./run $p --tier $tier 2>&1); rc=$?
